@@ -20,6 +20,13 @@ one-level summaries computed to a fixpoint over all units) plus Engine I (sa/int
   R13.6 located diagnostics    token argument of every error_tok/warn_tok is never a may-be-NULL value; verror_at prints
                                "file:line: " from its arguments; error* exit non-zero.
   R13.7 subprocess status      the code after wait() exits non-zero for every exit code 1..255 and every signal (+core).
+  R13.6L line exists           every token of a file, the end-of-input token included, is stamped with the physical line count >= 1
+                               (byte-loop analysis of C18's R18.3, reported here).
+  R13.8 member bases           every type kind the parser accepts as the base of `.member` is given an address by gen_addr where it handles
+                               a node kind conditionally (directly, or through a node field the parser sets for every accepted kind).
+  R13.9 end marker             token lists end in a TK_EOF element whose `next` is NULL: the successor of a token is dereferenced only where
+                               the token is known not to be TK_EOF (kind test, successful equal() with a non-empty string, precondition
+                               established by every caller, callee that diagnoses the marker) or after a null test.
 
 Not implemented (stated, not claimed): error_at's pointer lies inside current_file->contents (R13.6, second clause);
 store_fp/store_gp call sites whose argument is MIN(8,size) / size-8 (R13.3, listed as not judged in the evidence);
@@ -56,6 +63,7 @@ ASSUMED = {
     ('parse.c', 'string_initializer', 'param#3(Initializer*)->ty->base'): 'only caller initializer2 dispatches on init->ty->kind == TY_ARRAY',
     ('parse.c', 'count_array_init_elements', 'param#2(Type*)->base'): 'only caller array_initializer1 passes init->ty of an array',
     ('parse.c', 'asm_stmt', 'param#2(Token*)->ty->base'): 'a TK_STR token carries an array type (tokenize.c read_string_literal)',
+    ('parse.c', 'asm_stmt', 'Token->ty->base'): 'a TK_STR token carries an array type (the same, when the cursor is a local)',
     ('preprocess.c', 'join_adjacent_string_literals', 'Token->ty->base'): 'a TK_STR token carries an array type',
     ('parse.c', 'function', 'Type->return_ty'): 'caller parse() calls function() only when is_function() saw TY_FUNC',
     ('parse.c', 'stmt', 'current_fn->ty->return_ty'): 'current_fn is a function object',
@@ -118,7 +126,10 @@ def run(P, rep, tier):
                        '(frozen field table, parameters that receive NULL, functions that return NULL) dominated by a non-null fact; variant fields are '
                        'derived from the constructor sites; size dispatchers are compared with the sizes their callers can pass under the callers\' kind '
                        'guards and the typing relation established by add_type; assertions of the struct-return helpers are interpreted on a witness catalogue of small aggregates; '
-                       'the code after wait() is evaluated concretely for every exit code and every signal. '
+                       'the code after wait() is evaluated concretely for every exit code and every signal; '
+                       'token lists are treated as ended by the TK_EOF element (successor NULL): the same guard-fact analysis, with kind facts from tests, from successful '
+                       'equal() comparisons with non-empty strings and from preconditions that every caller establishes, proves each use of a successor; '
+                       'gen_addr\'s conditional arms are compared with the type kinds the parser accepts as member bases; the line stamping of tokens is decided by the byte-loop analysis of C18. '
                        'Not decided: termination, acceptance of all byte strings, recursion depth.')
     rep.assumptions += ['calloc/malloc/open_memstream succeed', 'every Node that reaches the code generator was typed by add_type and is not modified afterwards (typing relation injected into codegen.c)',
                         'a forced merge of analysis states (more than %d disjuncts, loop widening) makes disagreeing facts unknown, never may-be-NULL' % L.CAP, 'a callee does not reset an object field the caller has just tested (no alias kills); globals are killed only by direct writers',
@@ -235,7 +246,7 @@ def r131(W, engs, rep):
                       'global that is NULL in some state) is dominated by a non-null fact for the same access path', floor=60)
     rep.rule('R13.9', 'a token cursor never runs past the end-of-input token: the successor of a token (Token.next) is dereferenced only where the token is known not to be the TK_EOF '
                       'marker (a test of its kind, a successful comparison of its text with a non-empty string, a fact established by every caller or by a callee that diagnoses '
-                      'the marker), or after a null test of the successor; the successor of TK_EOF is NULL', floor=40)
+                      'the marker), or after a null test of the successor; the successor of TK_EOF is NULL', floor=100)
     rep.rule('R13.6', 'the token argument of every error_tok/warn_tok call is never a value that may be NULL (the diagnostic can be located)', floor=60)
     seen_src = {}
     obs = {}
@@ -1235,7 +1246,7 @@ def r136_lines(P, rep):
     physical line count (>= 1).  Decided by the byte-loop analysis of C18 (R18.3), reported here under R13.6L."""
     rep.rule('R13.6L', 'the line number a located diagnostic prints exists in the input: add_line_numbers starts at 1, grows by one per newline, visits every byte up to and '
                        'including the terminating NUL (where the end-of-input token lives) and stamps the token that starts at the visited byte; tokenize() applies it to the whole '
-                       'list after the end-of-input token was appended (no token keeps the calloc value 0)', floor=10)
+                       'list after the end-of-input token was appended (no token keeps the calloc value 0)', floor=14)
     from . import c18
     from ..interp import Unsupported
     u = P.unit('tokenize.c')
@@ -1388,17 +1399,27 @@ def r139_pre(W, rep):
         rets = fd.find('ReturnStmt')
         lf = MARKER_LEN_FIELD.get(L.rec_of(ps[ti].type) if ti < len(ps) else None)
         ok = bool(rets) and lf is not None and si < len(ps)
+        def is_len(x):
+            x = x.strip_all()
+            return (x.kind == 'MemberExpr' and x.name == lf and x.inner[0].strip_all().kind == 'DeclRefExpr' and x.inner[0].strip_all().ref_id == ps[ti].id)
+
+        def is_str(x):
+            x = x.strip_all()
+            return x.kind == 'DeclRefExpr' and x.ref_id == ps[si].id
         for r in rets:
+            if not ok:
+                break
+            if r.inner and r.inner[0].strip_all().int_value() == 0:
+                continue            # `return false;`
             good = False
             for c in (_conjuncts(r.inner[0]) if r.inner else []):
                 if c.kind != 'BinaryOperator' or c.opcode != '==':
                     continue
                 for a, b in ((c.inner[0].strip_all(), c.inner[1].strip_all()), (c.inner[1].strip_all(), c.inner[0].strip_all())):
-                    if a.kind != 'ArraySubscriptExpr' or b.int_value() != 0:
-                        continue
-                    base, idx = a.inner[0].strip_all(), a.inner[1].strip_all()
-                    if (base.kind == 'DeclRefExpr' and base.ref_id == ps[si].id and idx.kind == 'MemberExpr' and idx.name == lf
-                            and idx.inner[0].strip_all().kind == 'DeclRefExpr' and idx.inner[0].strip_all().ref_id == ps[ti].id):
+                    # str[tok->len] == 0   or   tok->len == strlen(str)
+                    if a.kind == 'ArraySubscriptExpr' and b.int_value() == 0 and is_str(a.inner[0]) and is_len(a.inner[1]):
+                        good = True
+                    if is_len(a) and b.kind == 'CallExpr' and b.callee() == 'strlen' and b.args() and is_str(b.args()[0]):
                         good = True
             ok = ok and good
         key = '%s:%s:true-only-if-string-ends-at-token-length' % (uns[0], f)
